@@ -61,6 +61,8 @@ type world struct {
 	forked        bool
 	mergedOverlap bool
 	reuseOpts     bool
+	aliasOrder    []string
+	logConc       uint // LogOptions.Concurrency of the replicas of this history (0 = default)
 	// codec configuration of the history: nil = default, otherwise link-encrypting with one shared key
 	io    iface.IO
 	ioDec *cbor.IOCbor
@@ -102,6 +104,7 @@ func (w *world) al(e iface.IPFSLogEntry) string {
 	a := "e" + strconv.Itoa(len(w.alias))
 	w.alias[k] = a
 	w.byAl[a] = e
+	w.aliasOrder = append(w.aliasOrder, a)
 	nx := make([]string, 0)
 	for _, c := range e.GetNext() {
 		nx = append(nx, w.alCid(c))
@@ -187,11 +190,28 @@ func (w *world) observe(i int) {
 	}
 	fmt.Fprintf(w.out, "O %d %d %s %s %s %s %d %s %s %s\n", i, l.Len(), lst(ents), lst(heads), lst(raw), lst(vals),
 		l.Clock.GetTime(), lst(sh), lst(sv), lst(jh))
+	// point look-ups: a few known entries (in this log or not) through Has / Get
+	if n := len(w.aliasOrder); n > 0 && !w.reps[i].tampered {
+		for k := 0; k < 2; k++ {
+			a := w.aliasOrder[w.r.Intn(n)]
+			e := w.byAl[a]
+			has := l.Has(e.GetHash())
+			g, ok := l.Get(e.GetHash())
+			same := "-"
+			if ok && g != nil {
+				same = "same"
+				if !g.GetHash().Equals(e.GetHash()) || string(g.GetPayload()) != string(e.GetPayload()) || !sameCidList(g.GetNext(), e.GetNext()) {
+					same = "differs"
+				}
+			}
+			fmt.Fprintf(w.out, "G %d %s %v %v %s\n", i, a, has, ok, same)
+		}
+	}
 }
 
 func (w *world) newReplica(id, writer, sk string, deny []string) int {
 	ident := w.ids.Identity(writer)
-	opts := &ipfslog.LogOptions{ID: id, SortFn: sortFnOf(sk), IO: w.io}
+	opts := &ipfslog.LogOptions{ID: id, SortFn: sortFnOf(sk), IO: w.io, Concurrency: w.logConc}
 	if len(deny) == 0 && w.reuseOpts {
 		// replicas created from one reused options value (NewLog writes its defaults back into it)
 		if w.optsCache == nil {
@@ -636,6 +656,7 @@ func runCore(seed int64, nHist, nOps int, out *bufio.Writer, thorough bool) *cor
 			stats.AclHists++
 		}
 		w.reuseOpts = r.Intn(3) == 0
+		w.logConc = []uint{0, 0, 1, 2, 3, 16, 64}[r.Intn(7)]
 		w.ioDec = mustIO()
 		keyed := r.Intn(4) == 0
 		if keyed {
